@@ -329,51 +329,85 @@ theorem findPeer_isSome_congr {ps ps' : List Peer} (h : conns ps' = conns ps) (c
     (findPeer ps' c).isSome = (findPeer ps c).isSome := by
   rw [Bool.eq_iff_iff, findPeer_isSome_iff, findPeer_isSome_iff, h]
 
-/-! ## Frame: what a piece of handler code may do -/
+/-! ## OutExt / Frame: what a piece of handler code may do -/
 
-/-- `x'` extends the output of `x` by observations satisfying `P` and leaves every routing table
-    (and the set of peers) alone. -/
-structure Frame (P : Obs → Bool) (x x' : Ctx) : Prop where
-  out : ∃ new, x'.out = new ++ x.out ∧ ∀ o ∈ new, P o = true
-  routes : routesMap x'.st.peers = routesMap x.st.peers
+/-- `x'` extends the output of `x` by observations satisfying `P` -/
+def OutExt (P : Obs → Prop) (x x' : Ctx) : Prop := ∃ new, x'.out = new ++ x.out ∧ ∀ o ∈ new, P o
 
-namespace Frame
+namespace OutExt
 
-theorem refl {P : Obs → Bool} (x : Ctx) : Frame P x x := ⟨⟨[], rfl, by simp⟩, rfl⟩
+theorem refl {P : Obs → Prop} (x : Ctx) : OutExt P x x := ⟨[], rfl, by simp⟩
 
-theorem trans {P : Obs → Bool} {x y z : Ctx} (h1 : Frame P x y) (h2 : Frame P y z) : Frame P x z := by
-  obtain ⟨⟨n1, e1, p1⟩, r1⟩ := h1
-  obtain ⟨⟨n2, e2, p2⟩, r2⟩ := h2
-  refine ⟨⟨n2 ++ n1, by rw [e2, e1, List.append_assoc], ?_⟩, r2.trans r1⟩
+theorem trans {P : Obs → Prop} {x y z : Ctx} (h1 : OutExt P x y) (h2 : OutExt P y z) : OutExt P x z := by
+  obtain ⟨n1, e1, p1⟩ := h1
+  obtain ⟨n2, e2, p2⟩ := h2
+  refine ⟨n2 ++ n1, by rw [e2, e1, List.append_assoc], ?_⟩
   intro o ho
   rcases List.mem_append.1 ho with h | h
   · exact p2 o h
   · exact p1 o h
 
-theorem mono {P Q : Obs → Bool} {x y : Ctx} (hPQ : ∀ o, P o = true → Q o = true) (h : Frame P x y) :
-    Frame Q x y := by
-  obtain ⟨⟨n, e, p⟩, r⟩ := h
-  exact ⟨⟨n, e, fun o ho => hPQ o (p o ho)⟩, r⟩
+theorem mono {P Q : Obs → Prop} {x y : Ctx} (hPQ : ∀ o, P o → Q o) (h : OutExt P x y) : OutExt Q x y := by
+  obtain ⟨n, e, p⟩ := h
+  exact ⟨n, e, fun o ho => hPQ o (p o ho)⟩
 
-theorem send {P : Obs → Bool} (x : Ctx) (c : Nat) (j : Json) (h : ∀ b, P (.send c j b) = true) :
-    Frame P x (Daemon.send x c j).1 := by
+theorem send {P : Obs → Prop} (x : Ctx) (c : Nat) (j : Json) (h : ∀ b, P (.send c j b)) :
+    OutExt P x (Daemon.send x c j).1 := by
   unfold Daemon.send
   split
-  · exact ⟨⟨[.send c j true], rfl, by simpa using h true⟩, rfl⟩
+  · exact ⟨[.send c j true], rfl, by simpa using h true⟩
   · rename_i b rest _
-    exact ⟨⟨[.send c j b], rfl, by simpa using h b⟩, rfl⟩
+    exact ⟨[.send c j b], rfl, by simpa using h b⟩
 
-theorem send' {P : Obs → Bool} (x : Ctx) (c : Nat) (j : Json) (h : ∀ b, P (.send c j b) = true) :
+theorem send' {P : Obs → Prop} (x : Ctx) (c : Nat) (j : Json) (h : ∀ b, P (.send c j b)) :
+    OutExt P x (Daemon.send' x c j) := OutExt.send x c j h
+
+theorem emit {P : Obs → Prop} (x : Ctx) (o : Obs) (h : P o) : OutExt P x (Daemon.emit x o) :=
+  ⟨[o], rfl, by simpa using h⟩
+
+theorem foldl {P : Obs → Prop} {α : Type} (f : Ctx → α → Ctx) (l : List α)
+    (hf : ∀ x a, a ∈ l → OutExt P x (f x a)) (x : Ctx) : OutExt P x (l.foldl f x) := by
+  induction l generalizing x with
+  | nil => exact refl x
+  | cons a t ih =>
+    simp only [List.foldl_cons]
+    exact (hf x a (List.mem_cons_self ..)).trans (ih (fun x b hb => hf x b (List.mem_cons_of_mem _ hb)) _)
+
+end OutExt
+
+/-- `x'` extends the output of `x` by observations satisfying `P` and leaves every routing table
+    (and the set of peers) alone. -/
+structure Frame (P : Obs → Prop) (x x' : Ctx) : Prop where
+  out : OutExt P x x'
+  routes : routesMap x'.st.peers = routesMap x.st.peers
+
+namespace Frame
+
+theorem refl {P : Obs → Prop} (x : Ctx) : Frame P x x := ⟨OutExt.refl x, rfl⟩
+
+theorem trans {P : Obs → Prop} {x y z : Ctx} (h1 : Frame P x y) (h2 : Frame P y z) : Frame P x z :=
+  ⟨h1.out.trans h2.out, h2.routes.trans h1.routes⟩
+
+theorem mono {P Q : Obs → Prop} {x y : Ctx} (hPQ : ∀ o, P o → Q o) (h : Frame P x y) :
+    Frame Q x y := ⟨h.out.mono hPQ, h.routes⟩
+
+theorem send {P : Obs → Prop} (x : Ctx) (c : Nat) (j : Json) (h : ∀ b, P (.send c j b)) :
+    Frame P x (Daemon.send x c j).1 := by
+  refine ⟨OutExt.send x c j h, ?_⟩
+  unfold Daemon.send
+  split <;> rfl
+
+theorem send' {P : Obs → Prop} (x : Ctx) (c : Nat) (j : Json) (h : ∀ b, P (.send c j b)) :
     Frame P x (Daemon.send' x c j) := Frame.send x c j h
 
-theorem emit {P : Obs → Bool} (x : Ctx) (o : Obs) (h : P o = true) : Frame P x (Daemon.emit x o) :=
-  ⟨⟨[o], rfl, by simpa using h⟩, rfl⟩
+theorem emit {P : Obs → Prop} (x : Ctx) (o : Obs) (h : P o) : Frame P x (Daemon.emit x o) :=
+  ⟨OutExt.emit x o h, rfl⟩
 
 /-- replacing the state by one with the same routing tables -/
-theorem setSt {P : Obs → Bool} (x : Ctx) (st : State) (h : routesMap st.peers = routesMap x.st.peers) :
-    Frame P x { x with st := st } := ⟨⟨[], rfl, by simp⟩, h⟩
+theorem setSt {P : Obs → Prop} (x : Ctx) (st : State) (h : routesMap st.peers = routesMap x.st.peers) :
+    Frame P x { x with st := st } := ⟨OutExt.refl x, h⟩
 
-theorem foldl {P : Obs → Bool} {α : Type} (f : Ctx → α → Ctx) (l : List α)
+theorem foldl {P : Obs → Prop} {α : Type} (f : Ctx → α → Ctx) (l : List α)
     (hf : ∀ x a, a ∈ l → Frame P x (f x a)) (x : Ctx) : Frame P x (l.foldl f x) := by
   induction l generalizing x with
   | nil => exact refl x
@@ -382,7 +416,7 @@ theorem foldl {P : Obs → Bool} {α : Type} (f : Ctx → α → Ctx) (l : List 
     exact (hf x a (List.mem_cons_self ..)).trans (ih (fun x b hb => hf x b (List.mem_cons_of_mem _ hb)) _)
 
 /-- folds that thread an extra value -/
-theorem foldl₂ {P : Obs → Bool} {α β : Type} (f : Ctx × β → α → Ctx × β) (l : List α)
+theorem foldl₂ {P : Obs → Prop} {α β : Type} (f : Ctx × β → α → Ctx × β) (l : List α)
     (hf : ∀ acc a, a ∈ l → Frame P acc.1 (f acc a).1) (acc : Ctx × β) : Frame P acc.1 (l.foldl f acc).1 := by
   induction l generalizing acc with
   | nil => exact refl _
@@ -392,20 +426,23 @@ theorem foldl₂ {P : Obs → Bool} {α β : Type} (f : Ctx × β → α → Ctx
 
 end Frame
 
+/-- the observation is not a send, or sends a fetch notification -/
+abbrev IsNotif (o : Obs) : Prop := obsNotif o = true
+
 /-! ## notifications -/
 
 theorem notif_send (c : Nat) (e : Element) (fid : Json) (event : String) (b : Bool) :
     obsNotif (.send c (notification e fid event) b) = true := notification_isNotification e fid event
 
 theorem notifyOne_frame (x : Ctx) (e : Element) (fk : FetchKey) (event : String) :
-    Frame obsNotif x (notifyOne x e fk event) := by
+    Frame IsNotif x (notifyOne x e fk event) := by
   unfold notifyOne
   split
   · exact Frame.send' _ _ _ (notif_send _ _ _ _)
   · exact Frame.refl x
 
 theorem notifyFetchers_frame (x : Ctx) (e : Element) (event : String) :
-    Frame obsNotif x (notifyFetchers x e event) := by
+    Frame IsNotif x (notifyFetchers x e event) := by
   unfold notifyFetchers
   apply Frame.foldl
   intro x s _
@@ -414,7 +451,7 @@ theorem notifyFetchers_frame (x : Ctx) (e : Element) (event : String) :
   · exact Frame.refl x
 
 theorem offerElement_frame (cfg : Config) (x : Ctx) (e : Element) (fp : Peer) (f : Fetch) :
-    Frame obsNotif x (offerElement cfg x e fp f).1 := by
+    Frame IsNotif x (offerElement cfg x e fp f).1 := by
   unfold offerElement
   split
   · exact Frame.refl x
@@ -423,7 +460,7 @@ theorem offerElement_frame (cfg : Config) (x : Ctx) (e : Element) (fp : Peer) (f
     · exact Frame.refl x
 
 theorem findFetchersForElement_frame (cfg : Config) (x : Ctx) (e : Element) :
-    Frame obsNotif x (findFetchersForElement cfg x e).1 := by
+    Frame IsNotif x (findFetchersForElement cfg x e).1 := by
   unfold findFetchersForElement
   apply Frame.foldl₂ (acc := (x, e))
   intro acc fp _
